@@ -151,6 +151,23 @@ static int dispatch_hand(char **tok, int nt) {
                       if (objs[x].first == 0) { cs.emplace_back(new Struct(*cs[objs[x].second])); objs.push_back({0, cs.size() - 1}); }
                       else { pods.emplace_back(new xrlpp::compoundData(*pods[objs[x].second])); objs.push_back({1, pods.size() - 1}); }
                       out += " u"; break;
+            /* m<i>: a new object MOVE-constructed from object i (the header declares no move constructor: this is a copy, and
+               the source stays a full owner); w<i>: object i pushed twice into a std::vector<Struct> that then grows
+               (re-allocation move/copy-constructs the elements), each element used and the vector destroyed: one new object
+               (a copy of the last element) survives.  Both must behave exactly like `c<i>` in the ownership model. */
+            case 'm': if (!live(x)) { out += " s"; break; }
+                      if (objs[x].first == 0) { cs.emplace_back(new Struct(std::move(*cs[objs[x].second]))); objs.push_back({0, cs.size() - 1}); }
+                      else { pods.emplace_back(new xrlpp::compoundData(std::move(*pods[objs[x].second]))); objs.push_back({1, pods.size() - 1}); }
+                      out += " u"; break;
+            case 'w': if (!live(x)) { out += " s"; break; }
+                      if (objs[x].first == 0) {
+                        std::vector<Struct> v; v.push_back(*cs[objs[x].second]); v.push_back(*cs[objs[x].second]);
+                        v.reserve(v.capacity() + 9); v.push_back(Struct(*cs[objs[x].second]));
+                        double acc = 0; for (auto &e : v) acc += e.UnitCellVolume();
+                        (void)acc;
+                        cs.emplace_back(new Struct(v.back())); objs.push_back({0, cs.size() - 1});
+                      } else { pods.emplace_back(new xrlpp::compoundData(*pods[objs[x].second])); objs.push_back({1, pods.size() - 1}); }
+                      out += " u"; break;
             case 'd': if (!live(x)) { out += " s"; break; }
                       if (objs[x].first == 0) cs[objs[x].second].reset(); else pods[objs[x].second].reset();
                       out += " u"; break;
